@@ -137,9 +137,12 @@ def run(ctx):
                         # 'value(err)' strings in both documented notations; the numbers they denote are fixed HERE, not read back from the library
                         if rng.random() < 0.5:
                             digits = rng.randint(5, 40)
-                            sval = "%.2f" % rng.uniform(0.5, 2.0)
+                            # the printed value fixes the decimal place of the bracket: trailing zeros count ('1.30(12)' = 1.30 +- 0.12)
+                            sval = rng.choice(["%.2f", "%.1f0", "%.3f", "%.2f0"]) % rng.uniform(0.5, 2.0)
+                            ndec = len(sval.split(".")[1])
                             entries.append("%s(%d)" % (sval, digits))
-                            denoted.append((Fraction(sval), Fraction(digits, 100)))
+                            denoted.append((Fraction(sval), Fraction(digits, 10 ** ndec)))
+                            continue
                         else:
                             sval = rng.choice(["%.1f", "%.2f"]) % rng.uniform(0.5, 2.0)
                             serr = rng.choice(["0.%d" % rng.randint(1, 9), "0.%02d" % rng.randint(5, 60), "1.%d" % rng.randint(0, 5)])
